@@ -63,6 +63,23 @@ func init() {
 		)
 		return strings.Join(out, " ")
 	})
+	register("cal-basic", func(a []string) string {
+		y, _ := strconv.Atoi(a[0])
+		m, _ := strconv.Atoi(a[1])
+		dd, _ := strconv.Atoi(a[2])
+		d, err := klog.NewDate(y, m, dd)
+		if err != nil {
+			return "err"
+		}
+		iy, iw := d.WeekNumber()
+		return strings.Join([]string{"ok", strconv.Itoa(d.Weekday()), strconv.Itoa(iy), strconv.Itoa(iw), strconv.Itoa(d.Quarter()),
+			tok(func() string { return u32(uint32(period.NewDayFromDate(d).Hash())) }),
+			tok(func() string { return u32(uint32(period.NewWeekFromDate(d).Hash())) }),
+			tok(func() string { return u32(uint32(period.NewMonthFromDate(d).Hash())) }),
+			tok(func() string { return u32(uint32(period.NewQuarterFromDate(d).Hash())) }),
+			tok(func() string { return u32(uint32(period.NewYearFromDate(d).Hash())) }),
+		}, " ")
+	})
 	register("cal-plus", func(a []string) string {
 		y, _ := strconv.Atoi(a[0])
 		m, _ := strconv.Atoi(a[1])
